@@ -30,6 +30,8 @@ type World struct {
 	All   []*ssa.Function          // source functions of the main package, sorted by name
 	Files int
 	Inlined []string // new single-call-site helpers inlined into their callers before the analysis
+	Renamed []string // baseline function -> its new name, recognised by receiver and signature
+	alias   map[*ssa.Function]string
 
 	flow      *flowGraph // lazily built
 	writerSet map[*ssa.Function]bool
@@ -101,8 +103,10 @@ func load(dir string, inline bool) (*World, error) {
 	if w.Main == nil {
 		return nil, fmt.Errorf("load: no SSA for root package")
 	}
+	w.renameAliases(ssautil.AllFunctions(prog))
+	w.Renamed = append(w.Renamed, fieldRenameAliases(w.Main.Pkg)...)
 	if inline {
-		done, err := inlineNewHelpers(prog, w.Main)
+		done, err := inlineNewHelpers(prog, w.Main, w.alias)
 		if err != nil {
 			return nil, fmt.Errorf("inline: %v", err)
 		}
@@ -121,7 +125,7 @@ func load(dir string, inline bool) (*World, error) {
 		if fn.Blocks == nil {
 			continue
 		}
-		name := fn.RelString(w.Main.Pkg)
+		name := w.fname(fn)
 		w.Funcs[name] = fn
 	}
 	for _, fn := range w.Funcs {
@@ -144,6 +148,19 @@ func topParent(fn *ssa.Function) *ssa.Function {
 func (w *World) fname(fn *ssa.Function) string {
 	if fn == nil {
 		return "<nil>"
+	}
+	if n, ok := w.alias[fn]; ok {
+		return n
+	}
+	if p := fn.Parent(); p != nil && len(w.alias) > 0 {
+		// closures of a renamed function keep its baseline name as prefix
+		top := fn
+		for top.Parent() != nil {
+			top = top.Parent()
+		}
+		if n, ok := w.alias[top]; ok {
+			return n + strings.TrimPrefix(fn.RelString(w.Main.Pkg), top.RelString(w.Main.Pkg))
+		}
 	}
 	return fn.RelString(w.Main.Pkg)
 }
@@ -216,7 +233,7 @@ func (w *World) field(typ, fld string) *types.Var {
 		return nil
 	}
 	for i := 0; i < st.NumFields(); i++ {
-		if st.Field(i).Name() == fld {
+		if fvName(st.Field(i)) == fld {
 			return st.Field(i)
 		}
 	}
